@@ -451,6 +451,11 @@ func (s *Server) handlePADT(clientMAC net.HardwareAddr, sessionID uint16) {
 		return
 	}
 
+	// Only the peer that owns the session may terminate it
+	if session.ClientMAC.String() != clientMAC.String() {
+		return
+	}
+
 	s.logger.Info("PPPoE session terminated by client",
 		zap.Uint16("session_id", sessionID),
 		zap.String("client_mac", clientMAC.String()),
@@ -478,6 +483,12 @@ func (s *Server) handleSession(clientMAC net.HardwareAddr, data []byte) {
 
 	session := s.sessions.GetSession(hdr.SessionID)
 	if session == nil {
+		return
+	}
+
+	// A session is identified by (peer MAC, session id): frames from any
+	// other source must not touch it
+	if session.ClientMAC.String() != clientMAC.String() {
 		return
 	}
 
